@@ -549,8 +549,11 @@ impl Oplog {
     sub `byte_lengths\.iter\(\)\.sum\(\)` => `vp_sum_u64(&byte_lengths)`
     before `let mut entries: Vec<Entry> = Vec::new();`:
         let ghost region0 = entries_buff@;
+        let ghost mut leader_partials: Seq<bool> = Seq::empty();
     loop 1:
         invariant
+            // C02 (atomic batches): the partial flag kept for an entry is the one its leader carries
+            partials@ == leader_partials,
             entries@.len() == partials@.len(), entries@.len() == byte_lengths@.len(),
             region0.len() <= 0xffff_ffff_ffff,
             spec_sum_u64(byte_lengths@) + entries_buff@.len() == region0.len(),
@@ -558,14 +561,20 @@ impl Oplog {
         decreases entries_buff@.len()
     loop 2:
         invariant
+            partials@ == leader_partials.subrange(0, partials@.len() as int), partials@.len() <= leader_partials.len(),
+            forall|k: int| partials@.len() <= k < leader_partials.len() ==> leader_partials[k],
             entries@.len() == partials@.len(), entries@.len() == byte_lengths@.len(),
             spec_sum_u64(byte_lengths@) <= region0.len(),
             forall|i: int| 0 <= i < byte_lengths@.len() ==> byte_lengths@[i] >= 8
         decreases partials@.len()
     before `outcome.oplog.entries_length = entries.len() as u64;`:
         proof { lemma_sum_u64_lower(byte_lengths@, 8); }
+        // C02: what is replayed never ends inside an atomic batch - the entries after the last complete one are dropped,
+        // and nothing else is (the kept entries are a prefix of the valid ones that ends with a non-partial leader)
+        assert(entries@.len() > 0 ==> !leader_partials[entries@.len() - 1]);
+        assert(forall|k: int| entries@.len() <= k < leader_partials.len() ==> leader_partials[k]);
     before `// Remove all trailing partial entries`:
-        proof { lemma_sum_u64_nonneg(byte_lengths@); }
+        proof { lemma_sum_u64_nonneg(byte_lengths@); assert(partials@.subrange(0, partials@.len() as int) =~= partials@); }
     before `byte_lengths.pop();`:
         let ghost bl1 = byte_lengths@;
     after `byte_lengths.pop();`:
@@ -576,6 +585,7 @@ impl Oplog {
         assert(entry_outcome.header_bit == Oplog::cur_hbit(outcome.oplog.header_bits));
     before `byte_lengths.push((entries_buff.len() - res.1.len()) as u64);`:
         let ghost bl0 = byte_lengths@;
+        proof { leader_partials = leader_partials.push(entry_outcome.partial_bit); }
     after `byte_lengths.push((entries_buff.len() - res.1.len()) as u64);`:
         assert(byte_lengths@.drop_last() =~= bl0);
     @*/
